@@ -3,7 +3,9 @@
 package vfix
 
 import (
+	"bytes"
 	"context"
+	"crypto/sha256"
 	"fmt"
 	"sort"
 
@@ -31,6 +33,11 @@ func NewKeys(n int) Keys {
 }
 
 func (k Keys) Pub(i int) gpbft.PubKey { return k.Allow(i) }
+
+// Aggregate overrides the fake backend's: aggregates are bound to the complete key set (see KeySetBound).
+func (k Keys) Aggregate(pks []gpbft.PubKey) (gpbft.Aggregate, error) {
+	return KeySetBound{Inner: k.FakeBackend}.Aggregate(pks)
+}
 
 func BigPow(s string) gpbft.StoragePower {
 	v, err := big.FromString(s)
@@ -159,4 +166,78 @@ func (k Keys) Cert(nn gpbft.NetworkName, inst uint64, chain *gpbft.ECChain, cur,
 		panic(err)
 	}
 	return c
+}
+
+// KeySetBound wraps the repository's fake signing scheme so that, like BLS with BDN coefficients, an
+// aggregate is bound to the COMPLETE key set it was created over (not only to the signers): two parties that
+// aggregate / verify over different key sets disagree.  The plain fake backend lacks this property.
+type KeySetBound struct {
+	Inner interface {
+		gpbft.Verifier
+		gpbft.Signer
+	}
+}
+
+func (k KeySetBound) Sign(ctx context.Context, pk gpbft.PubKey, msg []byte) ([]byte, error) {
+	return k.Inner.Sign(ctx, pk, msg)
+}
+
+func (k KeySetBound) Verify(pk gpbft.PubKey, msg, sig []byte) error { return k.Inner.Verify(pk, msg, sig) }
+
+func (k KeySetBound) Aggregate(pks []gpbft.PubKey) (gpbft.Aggregate, error) {
+	inner, err := k.Inner.Aggregate(pks)
+	if err != nil {
+		return nil, err
+	}
+	h := sha256.New()
+	for _, p := range pks {
+		h.Write(p)
+		h.Write([]byte{0})
+	}
+	return &keySetAgg{k: k, inner: inner, salt: h.Sum(nil), pks: pks}, nil
+}
+
+type keySetAgg struct {
+	k     KeySetBound
+	inner gpbft.Aggregate
+	salt  []byte
+	pks   []gpbft.PubKey
+}
+
+func (a *keySetAgg) mix(sig []byte) []byte {
+	h := sha256.New()
+	h.Write(a.salt)
+	h.Write(sig)
+	return h.Sum(nil)
+}
+
+func (a *keySetAgg) Aggregate(mask []int, sigs [][]byte) ([]byte, error) {
+	s, err := a.inner.Aggregate(mask, sigs)
+	if err != nil {
+		return nil, err
+	}
+	return a.mix(s), nil
+}
+
+func (a *keySetAgg) VerifyAggregate(mask []int, payload, aggSig []byte) error {
+	// the fake scheme is deterministic: recompute what the signers would have produced over this key set
+	sigs := make([][]byte, len(mask))
+	for i, m := range mask {
+		if m < 0 || m >= len(a.pks) {
+			return fmt.Errorf("signer %d out of range", m)
+		}
+		s, err := a.k.Inner.Sign(context.Background(), a.pks[m], payload)
+		if err != nil {
+			return err
+		}
+		sigs[i] = s
+	}
+	want, err := a.inner.Aggregate(mask, sigs)
+	if err != nil {
+		return err
+	}
+	if !bytes.Equal(a.mix(want), aggSig) {
+		return fmt.Errorf("aggregate signature is not valid for this key set")
+	}
+	return nil
 }
